@@ -234,11 +234,11 @@ pub fn len_fields(tier: Tier) -> Vec<u16> {
         .collect()
 }
 
-pub const LEN_VARIANTS: u64 = 8;
+pub const LEN_VARIANTS: u64 = 10;
 
 /// variant 0: exactly framed; 1: exactly framed and padded (P, last byte 4); 2 and 3: the real length is that of
 /// the length field with one bit flipped (a lost or invented carry); 4, 5: one word longer / shorter; 6: exactly
-/// framed, P set, final byte 0; 7: the exact length plus 65536 words
+/// framed, P set, final byte 0; 7: the exact length plus 65536 words; 8: bit 8 of the length flipped; 9: its bytes swapped
 pub fn len_case(lfs: &[u16], i: u64) -> LenCase {
     let lf = lfs[(i / LEN_VARIANTS) as usize % lfs.len()];
     let v = i % LEN_VARIANTS;
@@ -253,6 +253,9 @@ pub fn len_case(lfs: &[u16], i: u64) -> LenCase {
         5 => (4 * (words - 1), false, 0),
         // longer than any RTCP packet by exactly 2^16 words: the word count aliases the length field in 16 bits
         7 => (4 * words + 262_144, false, 0),
+        // a carry lost or invented between the two bytes of the length field; the two bytes swapped
+        8 => (4 * ((lf ^ 0x0100) as u32 + 1), false, 0),
+        9 => (4 * (lf.swap_bytes() as u32 + 1), false, 0),
         _ => (4 * words, true, 0),
     };
     LenCase { pt, count: 0, p, lf, len, last }
